@@ -54,6 +54,12 @@ def dPosition : Dec Nat := fun r => .ok (r.position, r)
 /-- `reader.read_nested(len, p)` -/
 def dNested {α : Type} (len : Nat) (p : Dec α) : Dec α := fun r => readNested r len p
 
+/-- `reader.read_into(&mut buf[..n])`: `read_slice(n)`, then `buf.copy_from_slice(input)` (panics on a length
+mismatch) -/
+def dReadInto (n : Nat) : Dec (List Nat) := do
+  let s ← dSlice n
+  if s.length = n then pure s else Dec.fail .panic
+
 /-- `let mut rd = SliceReader::new(bytes)?; p(&mut rd)?` — the reader is dropped afterwards, nothing checks that
 it was read to its end -/
 def runNew {α : Type} (bytes : List Nat) (p : Dec α) : Except E α :=
@@ -118,7 +124,7 @@ def oidValid (bs : List Nat) : Bool :=
 def dOid : Dec (List Nat) := do
   let len ← dHeaderOf TAG_OID
   if len > OID_MAX_SIZE then Dec.fail .length else do
-    let v ← dSlice len
+    let v ← dReadInto len
     if oidValid v then pure v else Dec.fail .value
 
 /-- `impl TryFrom<AnyRef> for ObjectIdentifier` -/
@@ -162,7 +168,7 @@ def dUintRef : Dec (List Nat) := do
 def dU8 : Dec Nat := do
   let len ← dHeaderOf TAG_INTEGER
   if len > 2 then Dec.fail .noncanonical else do
-    let bytes ← dSlice len
+    let bytes ← dReadInto len
     let input ← Dec.lift (decodeToSlice bytes)
     if input.length > 1 then Dec.fail .length else
       let v := input.headD 0
@@ -297,25 +303,29 @@ def monthTable (leap : Bool) (month : Nat) : Option (Nat × Nat) :=
   | 12 => some (334, 31)
   | _ => none
 
+/-- `if is_leap_year && month > 2 { ydays += 1 }` -/
+def leapAdj (leap : Bool) (month : Nat) : Nat := if leap && month > 2 then 1 else 0
+
+/-- the arithmetic of `DateTime::new`: seconds since 1970 of a date whose month starts `ydays0` days into a common year -/
+def dateTimeSecs (year month day hour minutes seconds ydays0 : Nat) : Nat :=
+  let leapYears := ((year - 1) - 1968) / 4 - ((year - 1) - 1900) / 100 + ((year - 1) - 1600) / 400
+  let ydays := ydays0 + (day - 1) + leapAdj (isLeapYear year) month
+  let days := (year - 1970) * 365 + leapYears + ydays
+  let time := seconds + minutes * 60 + hour * 3600
+  time + days * 86400
+
 /-- `DateTime::new` (every failure is `ErrorKind::DateTime`, here `.value`) -/
 def dateTimeNew (year month day hour minutes seconds : Nat) : Except E DateTime :=
   if year < 1970 ∨ month < 1 ∨ month > 12 ∨ day < 1 ∨ day > 31 ∨ hour > 23 ∨ minutes > 59 ∨ seconds > 59 then
     .error .value
   else
-    let leapYears := ((year - 1) - 1968) / 4 - ((year - 1) - 1900) / 100 + ((year - 1) - 1600) / 400
-    let leap := isLeapYear year
-    match monthTable leap month with
+    match monthTable (isLeapYear year) month with
     | none => .error .value
-    | some (ydays0, mdays) =>
-      if day > mdays ∨ day = 0 then .error .value
-      else
-        let ydays := ydays0 + (day - 1) + (if leap && month > 2 then 1 else 0)
-        let days := (year - 1970) * 365 + leapYears + ydays
-        let time := seconds + minutes * 60 + hour * 3600
-        let secs := time + days * 86400
-        if secs > MAX_UNIX_SECS then .error .value
-        else .ok { year := year, month := month, day := day, hour := hour, minutes := minutes,
-                   seconds := seconds, secs := secs }
+    | some t =>
+      if day > t.2 ∨ day = 0 then .error .value
+      else if dateTimeSecs year month day hour minutes seconds t.1 > MAX_UNIX_SECS then .error .value
+      else .ok { year := year, month := month, day := day, hour := hour, minutes := minutes, seconds := seconds,
+                 secs := dateTimeSecs year month day hour minutes seconds t.1 }
 
 /-- the `for mon_len in months.iter()` loop of `from_unix_duration`: `(mon, remdays)` when it ends -/
 def monthLoop : List Nat → Nat → Nat → Nat × Nat
@@ -324,38 +334,51 @@ def monthLoop : List Nat → Nat → Nat → Nat × Nat
 
 def MONTHS_FROM_MARCH : List Nat := [31, 30, 31, 30, 31, 31, 30, 31, 30, 31, 31, 29]
 
-/-- `DateTime::from_unix_duration` (musl's `__secs_to_tm`). `i64` arithmetic; `days` may be negative (dates
-before 2000-03-01), which the `remdays < 0` branch repairs — after it every quantity is non-negative. -/
+/-- broken-down time -/
+structure Tm where
+  year : Int
+  mon : Nat
+  mday : Nat
+  hour : Nat
+  minute : Nat
+  second : Nat
+deriving Repr, DecidableEq
+
+/-- the arithmetic of `DateTime::from_unix_duration` (musl's `__secs_to_tm`). `i64` arithmetic; `days` may be
+negative (dates before 2000-03-01), which the `remdays < 0` branch repairs — after it every quantity is
+non-negative. -/
+def secsToTm (secs : Nat) : Tm :=
+  let days : Int := (secs / 86400 : Nat) - 11017
+  let secsOfDay := secs % 86400
+  let qc0 : Int := Int.tdiv days 146097
+  let rem0 : Int := Int.tmod days 146097
+  let qc : Int := if rem0 < 0 then qc0 - 1 else qc0
+  let remdays : Nat := (if rem0 < 0 then rem0 + 146097 else rem0).toNat
+  let c0 := remdays / 36524
+  let c := if c0 = 4 then 3 else c0
+  let remdays := remdays - c * 36524
+  let q0 := remdays / 1461
+  let q := if q0 = 25 then 24 else q0
+  let remdays := remdays - q * 1461
+  let y0 := remdays / 365
+  let remyears := if y0 = 4 then 3 else y0
+  let remdays := remdays - remyears * 365
+  let year : Int := 2000 + (remyears : Int) + 4 * (q : Int) + 100 * (c : Int) + 400 * qc
+  let ml := monthLoop MONTHS_FROM_MARCH 0 remdays
+  let mday := ml.2 + 1
+  let year : Int := if ml.1 + 2 > 12 then year + 1 else year
+  let mon := if ml.1 + 2 > 12 then ml.1 - 10 else ml.1 + 2
+  let minsOfDay := secsOfDay / 60
+  { year := year, mon := mon, mday := mday, hour := minsOfDay / 60, minute := minsOfDay % 60, second := secsOfDay % 60 }
+
+/-- `DateTime::from_unix_duration` -/
 def dateTimeFromUnix (secs : Nat) : Except E DateTime :=
   if secs > MAX_UNIX_SECS then .error .value
   else
-    let days : Int := (secs / 86400 : Nat) - 11017
-    let secsOfDay := secs % 86400
-    let qc0 : Int := Int.tdiv days 146097
-    let rem0 : Int := Int.tmod days 146097
-    let qc : Int := if rem0 < 0 then qc0 - 1 else qc0
-    let remdays : Nat := (if rem0 < 0 then rem0 + 146097 else rem0).toNat
-    let c0 := remdays / 36524
-    let c := if c0 = 4 then 3 else c0
-    let remdays := remdays - c * 36524
-    let q0 := remdays / 1461
-    let q := if q0 = 25 then 24 else q0
-    let remdays := remdays - q * 1461
-    let y0 := remdays / 365
-    let remyears := if y0 = 4 then 3 else y0
-    let remdays := remdays - remyears * 365
-    let year : Int := 2000 + (remyears : Int) + 4 * (q : Int) + 100 * (c : Int) + 400 * qc
-    let (mon, remdays) := monthLoop MONTHS_FROM_MARCH 0 remdays
-    let mday := remdays + 1
-    let year : Int := if mon + 2 > 12 then year + 1 else year
-    let mon := if mon + 2 > 12 then mon - 10 else mon + 2
-    let second := secsOfDay % 60
-    let minsOfDay := secsOfDay / 60
-    let minute := minsOfDay % 60
-    let hour := minsOfDay / 60
     -- `year.try_into()?` (u16), `mday.try_into()?` (u8), …
-    if year < 0 ∨ year > 65535 ∨ mday > 255 then .error .overflow
-    else dateTimeNew year.toNat mon mday hour minute second
+    if (secsToTm secs).year < 0 ∨ (secsToTm secs).year > 65535 ∨ (secsToTm secs).mday > 255 then .error .overflow
+    else dateTimeNew (secsToTm secs).year.toNat (secsToTm secs).mon (secsToTm secs).mday (secsToTm secs).hour
+      (secsToTm secs).minute (secsToTm secs).second
 
 /-- `datetime::decode_decimal` -/
 def decodeDecimal (hi lo : Nat) : Except E Nat :=
@@ -368,43 +391,47 @@ def timeOfFields (year month day hour minute second : Nat) : Except E DateTime :
   | .error _ => .error .value
   | .ok dt => dateTimeFromUnix dt.secs
 
+/-- the array pattern of `UtcTime::decode_value` on the 13 octets read: `[y1, y2, …, s2, b'Z']` -/
+def utcOfBytes (b : List Nat) : Except E DateTime :=
+  let g := fun i => b.getD i 0
+  if g 12 ≠ 90 then .error .value else do
+    let yy ← decodeDecimal (g 0) (g 1)
+    let month ← decodeDecimal (g 2) (g 3)
+    let day ← decodeDecimal (g 4) (g 5)
+    let hour ← decodeDecimal (g 6) (g 7)
+    let minute ← decodeDecimal (g 8) (g 9)
+    let second ← decodeDecimal (g 10) (g 11)
+    let year := if yy ≥ 50 then yy + 1900 else yy + 2000
+    let dt ← timeOfFields year month day hour minute second
+    -- `UtcTime::try_from(DateTime)`: `year <= UtcTime::MAX_YEAR`
+    if dt.year ≤ 2049 then pure dt else .error .value
+
 /-- `UtcTime::decode` -/
 def dUtcTime : Dec DateTime := do
   let len ← dHeaderOf TAG_UTC_TIME
   if len ≠ 13 then Dec.fail .value else do
-    let bytes ← dSlice 13
-    match bytes with
-    | [y1, y2, mo1, mo2, d1, d2, h1, h2, mi1, mi2, s1, s2, z] =>
-      if z ≠ 90 then Dec.fail .value else do
-        let yy ← Dec.lift (decodeDecimal y1 y2)
-        let month ← Dec.lift (decodeDecimal mo1 mo2)
-        let day ← Dec.lift (decodeDecimal d1 d2)
-        let hour ← Dec.lift (decodeDecimal h1 h2)
-        let minute ← Dec.lift (decodeDecimal mi1 mi2)
-        let second ← Dec.lift (decodeDecimal s1 s2)
-        let year := if yy ≥ 50 then yy + 1900 else yy + 2000
-        let dt ← Dec.lift (timeOfFields year month day hour minute second)
-        -- `UtcTime::try_from(DateTime)`: `year <= UtcTime::MAX_YEAR`
-        if dt.year ≤ 2049 then pure dt else Dec.fail .value
-    | _ => Dec.fail .panic      -- `read_into` of a 13-byte buffer returns 13 bytes
+    let bytes ← dReadInto 13
+    Dec.lift (utcOfBytes bytes)
+
+/-- the array pattern of `GeneralizedTime::decode_value` on the 15 octets read -/
+def generalizedOfBytes (b : List Nat) : Except E DateTime :=
+  let g := fun i => b.getD i 0
+  if g 14 ≠ 90 then .error .value else do
+    let yhi ← decodeDecimal (g 0) (g 1)
+    let ylo ← decodeDecimal (g 2) (g 3)
+    let month ← decodeDecimal (g 4) (g 5)
+    let day ← decodeDecimal (g 6) (g 7)
+    let hour ← decodeDecimal (g 8) (g 9)
+    let minute ← decodeDecimal (g 10) (g 11)
+    let second ← decodeDecimal (g 12) (g 13)
+    timeOfFields (yhi * 100 + ylo) month day hour minute second
 
 /-- `GeneralizedTime::decode` -/
 def dGeneralizedTime : Dec DateTime := do
   let len ← dHeaderOf TAG_GENERALIZED_TIME
   if len ≠ 15 then Dec.fail .value else do
-    let bytes ← dSlice 15
-    match bytes with
-    | [y1, y2, y3, y4, mo1, mo2, d1, d2, h1, h2, mi1, mi2, s1, s2, z] =>
-      if z ≠ 90 then Dec.fail .value else do
-        let yhi ← Dec.lift (decodeDecimal y1 y2)
-        let ylo ← Dec.lift (decodeDecimal y3 y4)
-        let month ← Dec.lift (decodeDecimal mo1 mo2)
-        let day ← Dec.lift (decodeDecimal d1 d2)
-        let hour ← Dec.lift (decodeDecimal h1 h2)
-        let minute ← Dec.lift (decodeDecimal mi1 mi2)
-        let second ← Dec.lift (decodeDecimal s1 s2)
-        Dec.lift (timeOfFields (yhi * 100 + ylo) month day hour minute second)
-    | _ => Dec.fail .panic
+    let bytes ← dReadInto 15
+    Dec.lift (generalizedOfBytes bytes)
 
 /-- `Time::decode` (`#[derive(Choice)]`): `peek_tag`, then the variant's decoder -/
 def dTime : Dec DateTime := do
